@@ -12,24 +12,17 @@
 // See the License for the specific language governing permissions and
 // limitations under the License.
 
-//! A disk cache engine that serves as the disk cache backend of `foyer`.
+//! Verification hooks, only compiled with the `verif` feature.
+//!
+//! Re-exports of internal io types that appear in the signatures of the public
+//! [`crate::IoEngine`] / [`crate::IoEngineConfig`] traits, so that an external crate can
+//! implement a wrapping io engine that observes, delays or perturbs device io.
+//!
+//! No behaviour lives here.
 
-#![cfg_attr(feature = "nightly", feature(allocator_api))]
-#![cfg_attr(feature = "nightly", feature(write_all_vectored))]
-
-mod compress;
-mod engine;
-mod filter;
-mod io;
-mod keeper;
-mod serde;
-mod store;
-
-mod prelude;
-pub use prelude::*;
-
-#[cfg(any(test, feature = "test_utils"))]
-pub mod test_utils;
-
-#[cfg(feature = "verif")]
-pub mod verif;
+pub use crate::io::{
+    PAGE,
+    bytes::{IoB, IoBuf, IoBufMut, IoSlice, IoSliceMut, Raw},
+    device::{Partition, PartitionId},
+    engine::IoEngineBuildContext,
+};
